@@ -142,7 +142,7 @@ def main():
     m = dict(
         version=1,
         setup_cmd="python3 -c \"import json,sys; print('verif setup ok')\" && verus --version >/dev/null",
-        hooks=dict(guard="rxrust_verif", enable="RUSTFLAGS='--cfg rxrust_verif' (set by engine/krun.py for every Engine-K run; one named yield point in StatusFuture::poll)",
+        hooks=dict(guard="rxrust_verif", enable="RUSTFLAGS='--cfg rxrust_verif' (set by engine/krun.py for every Engine-K run; one named yield point in StatusFuture::poll; MutArc::verif_is_locked, a read-only lock observer used by the lock-scope harnesses)",
                    baseline_off_cmd="cd /repo && cargo test --workspace --no-fail-fast --offline",
                    source_commits=hooks_commits, add_only=True),
         engines=[dict(name="kani-real-crate", path="engine/krun.py", serves_properties=["C03", "C05", "C08", "C13", "C14", "C16", "C18", "C19"],
